@@ -30,6 +30,10 @@ package mmr
 //@   requires args: m != nil && m.hashFn != nil && l != nil && n >= 0
 //@   ensures grows: len(result) >= len(peaks) && len(result) >= 1
 //@   ensures visible: forall(i, 0, len(peaks), peaks[i] == old(peaks[i]))
+//@   ensures lower: forall(i, 0, len(peaks), i < n ==> result[i] == old(peaks[i]))
+//@   ensures append: n >= len(peaks) ==> len(result) == len(peaks) + 1 && result[len(peaks)] == l
+//@   ensures fill: n < len(peaks) && old(peaks[n]) == nil ==> len(result) == len(peaks) && result[n] == l && forall(i, 0, len(peaks), i != n ==> result[i] == old(peaks[i]))
+//@   ensures carry: n < len(peaks) && old(peaks[n]) != nil ==> result[n] == nil
 //@   assigns peaks[*]
 
 //@ func (*MMR).AppendOne
@@ -38,6 +42,9 @@ package mmr
 //@   requires args: m != nil && m.hashFn != nil
 //@   ensures same: data == nil ==> result == old(m.Peaks)
 //@   ensures set: result == m.Peaks
+//@   ensures empty: data != nil && len(old(m.Peaks)) == 0 ==> len(result) == 1 && result[0] == data
+//@   ensures slot0: data != nil && len(old(m.Peaks)) > 0 && old(m.Peaks[0]) == nil ==> len(result) == len(old(m.Peaks)) && result[0] == data && forall(i, 1, len(result), result[i] == old(m.Peaks[i]))
+//@   ensures carry: data != nil && len(old(m.Peaks)) > 0 && old(m.Peaks[0]) != nil ==> result[0] == nil
 //@   ensures old_list: forall(i, 0, len(old(m.Peaks)), old(m.Peaks)[i] == old(m.Peaks[i]))
 //@   assigns m.Peaks
 
